@@ -5,6 +5,7 @@ import syncfam
 from vlib import finish
 
 ASSUME = [
+    "model -> code conformance: the 387 (stream, selector) cases of spec/MetaStackMC.tla are written by TLC with the forwarded paths and recorded ids of the model's run; after the real transfer the destination holds exactly those paths and the ids on the wire are exactly those ids",
     "the selector is a path table closed under hard-link sources (the statement's precondition)",
     "the listing file is decoded by the harness (4-byte little-endian length + stat encoding, repeated, no trailing bytes) and each record is identified by a canonical hash of all stat fields; TLC compares the record sequence with the STAT log minus the top-level entry named .fsutil-metadata",
     "a single stat larger than a 32 KiB buffer chunk cannot be materialised on ext4 (xattr size limit): it is announced by the synthetic reference sender and left unselected",
